@@ -45,7 +45,94 @@ def _universe(tier):
 def shards(tier):
     uni = _universe(tier)
     size = CHUNK if tier == "quick" else 32
-    return [(i, min(i + size, len(uni))) for i in range(0, len(uni), size)]
+    out = [(i, min(i + size, len(uni))) for i in range(0, len(uni), size)]
+    # builder phase: one shard per first operation (and second, in thorough)
+    ops = builder_ops()
+    if tier == "quick":
+        out += [("build", (i,)) for i in range(len(ops))]
+    else:
+        out += [("build", (i, j)) for i in range(len(ops)) for j in range(len(ops))]
+    return out
+
+
+BUILD_NAMES = ("A", "B", "C")
+BUILD_DEPTH = {"quick": 3, "thorough": 4}
+
+
+def builder_ops():
+    ops = [("add_node", (v,)) for v in BUILD_NAMES]
+    ops += [("add_directed_edge", (u, v)) for u in BUILD_NAMES for v in BUILD_NAMES if u != v]
+    ops += [("add_undirected_edge", (u, v)) for u in BUILD_NAMES for v in BUILD_NAMES if u != v]
+    ops += [("copy", ())]
+    return ops
+
+
+def _apply_builder(y, ref: G, op, args):
+    """Apply one mutating builder operation to the live graph and to the reference triple."""
+    if op == "add_node":
+        y.add_node(V(args[0]))
+        nodes = ref.nodes if args[0] in ref.nodes else ref.nodes + (args[0],)
+        return y, G(nodes, ref.di, ref.bi)
+    nodes = ref.nodes + tuple(a for a in args if a not in ref.nodes)
+    if op == "add_directed_edge":
+        y.add_directed_edge(V(args[0]), V(args[1]))
+        di = ref.di if tuple(args) in ref.di else ref.di + (tuple(args),)
+        return y, G(nodes, di, ref.bi)
+    if op == "add_undirected_edge":
+        y.add_undirected_edge(V(args[0]), V(args[1]))
+        e = tuple(sorted(args))
+        bi = ref.bi if e in ref.bi else ref.bi + (e,)
+        return y, G(nodes, ref.di, bi)
+    raise ValueError(op)
+
+
+def _explore_builder(res: Res, prefix, tier):
+    """Every sequence of builder operations (depth <= BUILD_DEPTH) starting with ``prefix``, replayed on a fresh
+    NxMixedGraph; after EVERY step all query operations are run on the live object and compared with the reference."""
+    from y0.graph import NxMixedGraph
+
+    ops = builder_ops()
+    depth = BUILD_DEPTH[tier]
+    for tail in itt.product(range(len(ops)), repeat=depth - len(prefix)):
+        # sequences shorter than depth are prefixes of longer ones: every step is checked, so they are covered
+        seq = tuple(prefix) + tail
+        y = NxMixedGraph()
+        ref = G((), (), ())
+        originals = []  # (object, snapshot, ref) of graphs that were copied from: must never change afterwards
+        hist = []
+        res.states += 1
+        for k in seq:
+            op, args = ops[k]
+            hist.append([op, list(args)])
+            case = {"builder_ops": list(hist)}
+            res.transitions += 1
+            try:
+                if op == "copy":
+                    c = y.copy()
+                    if c is y:
+                        res.violation("copy", case, "copy() returned the receiver")
+                    originals.append((y, snapshot(y), ref))
+                    y = c
+                else:
+                    y, ref = _apply_builder(y, ref, op, args)
+            except Exception as e:  # noqa
+                res.violation(op, case, f"raised {type(e).__name__}: {e}")
+                break
+            if triple(y) != ref_triple(ref):
+                res.violation(op, case, f"after {hist}: graph is {triple(y)}, reference {ref.key()}")
+                res.outcomes["mismatch"] += 1
+                break
+            nviol = len(res.violations)
+            _check_queries(res, case, y, ref, is_acyclic(ref.nodes, ref.di))
+            if len(res.violations) > nviol:
+                res.outcomes["mismatch"] += 1
+                break
+            res.outcomes["builder_step_ok"] += 1
+        for o, snap, oref in originals:
+            if snapshot(o) != snap:
+                res.violation("receiver_mutated", {"builder_ops": hist}, "mutating a copy changed the original graph")
+        if len(seq) == depth and len(res.samples) < 2 and seq[0] > 3:
+            res.sample({"builder_ops": hist})
 
 
 def describe(tier):
@@ -57,6 +144,9 @@ def describe(tier):
         + str(HASH_SEEDS[tier]),
         "rule": "state = (base graph, insertion order, operation sequence); transition = one real y0 call whose "
         "result is compared with the set-triple reference model",
+        "bound_builder": "plus every sequence of mutating builder operations (add_node, add_directed_edge, add_undirected_edge over "
+        "3 names, copy) of depth %d from the empty graph, with every query operation run on the live object after every step"
+        % BUILD_DEPTH[tier],
         "assumptions": [
             "moralize is specified by its docstring: same nodes and directed edges, undirected = original + co-parents",
             "get_nodes_in_directed_paths is exercised with disjoint source/target sets",
@@ -329,17 +419,26 @@ def _classify(name, ref: G, s):
 
 
 def work(shard, tier, seed):
+    res = Res()
+    if shard[0] == "build":
+        _explore_builder(res, shard[1], tier)
+        return res
     lo, hi = shard
     uni = _universe(tier)
-    res = Res()
     for kind, g in uni[lo:hi]:
         _explore_graph(res, kind, g, tier)
     return res
 
 
 def replay(case, clause=None):
-    g = G.from_json(case["graph"])
     res = Res()
+    if "builder_ops" in case:
+        ops = builder_ops()
+        idx = [ops.index((o, tuple(a))) for o, a in case["builder_ops"]]
+        BUILD_DEPTH["replay"] = len(idx)
+        _explore_builder(res, idx, "replay")
+        return list(res.violations)
+    g = G.from_json(case["graph"])
     _explore_graph(res, "replay", g, "quick")
     want_ops = case.get("ops")
     return [v for v in res.violations if (clause is None or v["clause"] == clause)]
